@@ -41,6 +41,17 @@ void wa_foreach_live(void (*fn)(void * p, size_t n, void * cookie), void * cooki
 /* Called just before a tracked block is released (or moved by realloc). */
 void wa_set_free_hook(void (*hook)(void * p, size_t n));
 
+/*
+ * Opt-in (off by default): while on, blocks handed out by malloc / calloc /
+ * realloc / strdup are 8 mod 16 (n + 8 bytes are taken from the real
+ * allocator, which aligns to 16, and base + 8 is returned; the block still
+ * ends where the real one ends, so ASan guards its end exactly; sizes reported
+ * by wa_size_of and to the free hook are the requested ones).  A block keeps
+ * its shift until it is freed, whatever the mode is then.  OpenSSL's blocks
+ * (wa_hook_openssl) are never shifted.
+ */
+void wa_misalign(int on);
+
 /* Total successful allocations tracked since start. */
 uint64_t wa_total_allocs(void);
 
